@@ -734,6 +734,47 @@ def documented_errors():
         ACC.violate("documented-error:first_derivative", "raised %r instead of TypeError" % (e,), {})
 
 
+def ill_typed_inputs():
+    """Observation only (no verdict): what the bindings do with operands / callbacks of the wrong type.
+    The property is about values on well-typed inputs; this exercises the error branches so that the
+    coverage lane sees them, and records the outcome types in the evidence counters."""
+    x = nd.Dual64(1.5, 1.0)
+    strs = np.empty(2, dtype=object)
+    strs[0], strs[1] = "a", "b"
+    mixed = np.empty(2, dtype=object)
+    mixed[0], mixed[1] = nd.Dual64(1.0, 0.0), "b"
+    cases = [
+        ("dual+str", lambda: x + "s"), ("dual-str", lambda: x - "s"), ("dual*str", lambda: x * "s"), ("dual/str", lambda: x / "s"),
+        ("dual+object-array-of-str", lambda: x + strs), ("dual-object-array-of-str", lambda: x - strs),
+        ("dual*object-array-of-str", lambda: x * strs), ("dual/object-array-of-str", lambda: x / strs),
+        ("dual+mixed-object-array", lambda: x + mixed), ("dual*int-array", lambda: x * np.array([1, 2])),
+        ("gradient:f-returns-list", lambda: nd.gradient(lambda v: [v[0]], [1.0, 2.0])),
+        ("gradient:f-returns-list-dyn", lambda: nd.gradient(lambda v: [v[0]], [1.0] * 12)),
+        ("gradient:x-is-float", lambda: nd.gradient(lambda v: v, 1.0)),
+        ("jacobian:f-returns-scalar", lambda: nd.jacobian(lambda v: v[0], [1.0, 2.0])),
+        ("jacobian:x-is-float", lambda: nd.jacobian(lambda v: [v], 1.0)),
+        ("hessian:f-returns-list", lambda: nd.hessian(lambda v: [v[0]], [1.0, 2.0])),
+        ("hessian:f-returns-list-dyn", lambda: nd.hessian(lambda v: [v[0]], [1.0] * 12)),
+        ("hessian:x-is-float", lambda: nd.hessian(lambda v: v, 1.0)),
+        ("partial_hessian:f-returns-list", lambda: nd.partial_hessian(lambda a, b: [a[0]], [1.0], [2.0])),
+        ("partial_hessian:f-returns-list-dyn", lambda: nd.partial_hessian(lambda a, b: [a[0]], [1.0] * 7, [2.0])),
+        ("partial_hessian:x-is-float", lambda: nd.partial_hessian(lambda a, b: a, 1.0, 2.0)),
+        ("second_derivative:f-returns-float", lambda: nd.second_derivative(lambda v: 1.0, 1.0)),
+        ("third_derivative:f-returns-float", lambda: nd.third_derivative(lambda v: 1.0, 1.0)),
+        ("second_partial_derivative:f-returns-float", lambda: nd.second_partial_derivative(lambda a, b: 1.0, 1.0, 2.0)),
+        ("third_partial_derivative:f-returns-float", lambda: nd.third_partial_derivative(lambda a, b, c: 1.0, 1.0, 2.0, 3.0)),
+        ("third_partial_derivative_vec:f-returns-float", lambda: nd.third_partial_derivative_vec(lambda v: 1.0, [1.0, 2.0], 0, 1, 1)),
+    ]
+    for name, thunk in cases:
+        try:
+            thunk()
+            out = "returned-a-value"
+        except BaseException as e:  # noqa
+            _reraise_control(e)
+            out = type(e).__name__
+        ACC.counters["ill-typed-input:%s -> %s" % (name, out)] = ACC.counters.get("ill-typed-input:%s -> %s" % (name, out), 0) + 1
+
+
 def main():
     rng = random.Random(SEED)
     rounds = 120 if TIER == "quick" else 20000
@@ -751,6 +792,7 @@ def main():
             if d in ("gradient", "hessian", "jacobian", "partial_hessian", "third_partial_derivative_vec"):
                 run_driver(rng, d)
     documented_errors()
+    ill_typed_inputs()
     finish()
 
 
